@@ -90,6 +90,191 @@ type Def struct {
 	First   bool           `json:"first,omitempty"`   // index 0 of its stream (gets the stale sequence in-process in the quick tier)
 	Enums   []EnumInfo     `json:"enums,omitempty"`   // genum only
 	Errors  []ErrInfo      `json:"errors,omitempty"`  // gerror only
+	// file-name flags (every generator has them): where the output goes and where the input is
+	// read from, as the CLI is told; "" = the go:generate defaults (GOFILE, <file>.<generator>.go)
+	OutName string `json:"out_name,omitempty"` // output file name given through OutFlag
+	OutAbs  bool   `json:"out_abs,omitempty"`  // ... as an absolute path
+	OutFlag string `json:"out_flag,omitempty"` // spelling of the flag: -out | -out-file
+	InFlag  string `json:"in_flag,omitempty"`  // "" (GOFILE only) | -in | -in-file
+	InAbs   bool   `json:"in_abs,omitempty"`   // ... with the absolute path of def.go
+	Stream  string `json:"stream,omitempty"`   // "flags" for the definitions of the flag stream
+	// further hand-written files of the package (file name -> content), e.g. code that uses the
+	// generated identifiers and therefore only type-checks once the output exists
+	Extra map[string]string `json:"extra,omitempty"`
+	Shape string            `json:"shape,omitempty"` // feedback stream: which feedback channel the definition exercises
+}
+
+// feedbackDefs: the "feedback" stream.  The generators load the whole package with go/types —
+// INCLUDING their own previous output when it is there.  These definitions make the package
+// type-check differently with and without that output, in every way the generated identifiers
+// can be referred to from the input: a genum trait typed by an enum generated by the same
+// invocation (another type of the -types list, or the enum itself), parsable or not; a gsort
+// struct with a field of its own generated slice type, keyed through a generated method; a
+// gerror struct with a field of another generated error type; and for each a hand-written file
+// that calls generated methods (it has type errors while the package is fresh).
+func feedbackDefs(seed uint64, i int) []Def {
+	r := gal.NewRand(seed*104729 + 15485863*uint64(i+1))
+	n := 700 + i
+	var out []Def
+	// --- genum: trait typed by another enum of the same invocation
+	{
+		kind, color := fmt.Sprintf("Kind%d", n), fmt.Sprintf("Color%d", n)
+		nk := 2 + r.IntN(3)
+		var b strings.Builder
+		fmt.Fprintf(&b, "//nolint:all // farm definition\npackage fa%d\n\n// %s is generated by the same invocation as %s.\ntype %s int\n\n// Values of %s.\nconst (\n", n, kind, color, kind, kind)
+		ki := EnumInfo{Type: kind}
+		for k := 0; k < nk; k++ {
+			fmt.Fprintf(&b, "\t%sV%d = %s(%d)\n", kind, k, kind, k)
+			ki.Values = append(ki.Values, EnumValue{Name: fmt.Sprintf("%sV%d", kind, k), Value: int64(k)})
+		}
+		trait := "Kind" + color
+		fmt.Fprintf(&b, ")\n\n// %s has a trait whose type is %s.\ntype %s int\n\n// Values of %s.\nconst (\n", color, kind, color, color)
+		ci := EnumInfo{Type: color, Traits: []string{trait}}
+		for k := 0; k < nk; k++ {
+			l := "_"
+			if k == 0 {
+				l = "_" + trait
+			}
+			fmt.Fprintf(&b, "\t%sV%d, %s = %s(%d), %sV%d\n", color, k, l, color, k, kind, (k+1)%nk)
+			ci.Values = append(ci.Values, EnumValue{Name: fmt.Sprintf("%sV%d", color, k), Value: int64(k)})
+		}
+		b.WriteString(")\n")
+		// the enum carrying the trait comes first: the subset configuration of the stale-output
+		// history (`-types <first>`) then generates it alone over an output that still declares
+		// the methods of the trait's type
+		d := Def{Gen: "genum", Pkg: fmt.Sprintf("fa%d", n), Types: []string{color, kind}, Source: b.String(),
+			Enums: []EnumInfo{ki, ci}, Stream: "feedback", Shape: "trait-typed-by-enum-of-same-invocation",
+			Counts: map[string]int{"types": 2, "traits": 1, "values": 2 * nk, "feedback_definitions": 1}}
+		if i%2 == 0 {
+			d.Opts = []string{"-parsableByTraits=" + trait}
+			d.Shape = "parsable-" + d.Shape
+		}
+		d.Extra = map[string]string{"use.go": fmt.Sprintf("package fa%d\n\n// useGenerated type-checks only once the output exists.\nfunc useGenerated() string { return %sV0.String() + %sV0.%s().String() }\n", n, color, color, trait)}
+		out = append(out, d)
+	}
+	// --- genum: trait typed by the enum itself
+	{
+		name := fmt.Sprintf("Step%d", n)
+		nv := 3 + r.IntN(2)
+		trait := "Next" + name
+		var b strings.Builder
+		fmt.Fprintf(&b, "//nolint:all // farm definition\npackage fb%d\n\n// %s has a trait of its own type.\ntype %s int\n\n// Values of %s.\nconst (\n", n, name, name, name)
+		info := EnumInfo{Type: name, Traits: []string{trait}}
+		for k := 0; k < nv; k++ {
+			l := "_"
+			if k == 0 {
+				l = "_" + trait
+			}
+			fmt.Fprintf(&b, "\t%sV%d, %s = %s(%d), %sV%d\n", name, k, l, name, k, name, (k+1)%nv)
+			info.Values = append(info.Values, EnumValue{Name: fmt.Sprintf("%sV%d", name, k), Value: int64(k)})
+		}
+		b.WriteString(")\n")
+		d := Def{Gen: "genum", Pkg: fmt.Sprintf("fb%d", n), Types: []string{name}, Source: b.String(),
+			Enums: []EnumInfo{info}, Stream: "feedback", Shape: "trait-typed-by-enum-of-same-invocation",
+			Counts: map[string]int{"types": 1, "traits": 1, "values": nv, "feedback_definitions": 1}}
+		if i%2 == 0 {
+			d.Opts = []string{"-parsableByTraits=" + trait}
+			d.Shape = "parsable-" + d.Shape
+		}
+		out = append(out, d)
+	}
+	// --- gsort: a field of the struct's own generated slice type, keyed through a generated method
+	{
+		typ := fmt.Sprintf("Node%d", n)
+		byName, byKids := "ByName"+typ, "ByKids"+typ
+		if r.IntN(2) == 0 {
+			byKids = "*" + byKids
+		}
+		src := fmt.Sprintf("package fc%d\n\n// %s refers to the slice type generated for it.\ntype %s struct {\n\tName string `gsort:\"%s,1\" gsort:\"%s,2\"`\n\tKids %s `gsort:\"%s,1,Len()\"`\n\tOpen bool `gsort:\"%s,2\"`\n}\n",
+			n, typ, typ, byName, byKids, byName, byKids, byName)
+		st := SStruct{Type: typ, Fields: []SField{
+			{Name: "Name", GoType: "string", Tags: []STag{{byName, 1}, {byKids, 2}}},
+			{Name: "Kids", GoType: byName, Tags: []STag{{byKids, 1}}},
+			{Name: "Open", GoType: "bool", Tags: []STag{{byName, 2}}}}}
+		out = append(out, Def{Gen: "gsort", Pkg: fmt.Sprintf("fc%d", n), Types: []string{typ}, Source: src, Structs: []SStruct{st},
+			Stream: "feedback", Shape: "field-of-generated-type",
+			Extra:  map[string]string{"use.go": fmt.Sprintf("package fc%d\n\nimport \"sort\"\n\n// sortNodes type-checks only once the output exists.\nfunc sortNodes(ns []%s) { sort.Sort(%s(ns)) }\n", n, typ, byName)},
+			Counts: map[string]int{"types": 1, "sorters": 2, "feedback_definitions": 1}})
+	}
+	// --- gerror: a field of another generated error type + a caller of generated methods
+	{
+		a, bb := fmt.Sprintf("OuterErr%d", n), fmt.Sprintf("InnerErr%d", n)
+		src := fmt.Sprintf("package fd%d\n\nimport \"github.com/drshriveer/gtools/gerror\"\n\n// %s wraps an %s.\ntype %s struct {\n\tgerror.GError\n\tCause *%s `gerror:\"_,print,clone\"`\n\tCode int `gerror:\"code,print\"`\n}\n\n// %s is generated by the same invocation.\ntype %s struct {\n\tgerror.GError\n\tZone string `gerror:\"_,print,clone\"`\n\tAttempt int `gerror:\"_,clone\"`\n}\n",
+			n, a, bb, a, bb, bb, bb)
+		d := Def{Gen: "gerror", Pkg: fmt.Sprintf("fd%d", n), Types: shuffled(r, []string{a, bb}), Source: src,
+			Errors: []ErrInfo{{Type: a, Fields: []string{"Cause", "Code"}, Printed: 2}, {Type: bb, Fields: []string{"Zone", "Attempt"}, Printed: 1}},
+			Stream: "feedback", Shape: "field-of-generated-type",
+			Extra:  map[string]string{"use.go": fmt.Sprintf("package fd%d\n\nimport \"github.com/drshriveer/gtools/gerror\"\n\n// rebuild type-checks only once the output exists (toPrimaryType is generated).\nfunc rebuild(e *%s, g *gerror.GError) gerror.Error { return e.toPrimaryType(g) }\n", n, a)},
+			Counts: map[string]int{"types": 2, "tagged_fields": 4, "feedback_definitions": 1}}
+		// Errors must be listed in -types order for the order observations
+		if d.Types[0] != a {
+			d.Errors[0], d.Errors[1] = d.Errors[1], d.Errors[0]
+		}
+		out = append(out, d)
+	}
+	return out
+}
+
+// flagDefs: the "flags" stream.  One definition per generator whose invocation spells out the
+// file-name flags in the ways the CLIs accept (short alias / long name, bare name / name in the
+// default style / absolute path, input from GOFILE / from the flag) crossed with the
+// generators' boolean switches; the index fixes the file-name variant (so that three indices
+// cover the three output-name styles with and without an explicit input flag), the rest is drawn.
+func flagDefs(seed uint64, i int) []Def {
+	r := gal.NewRand(seed*7919 + 1000003*uint64(i+1))
+	n := 900 + i
+	ds := []Def{gsortDef(r, n), genumDef(r, n), gerrorDef(r, n)}
+	for k := range ds {
+		d := &ds[k]
+		d.Stream = "flags"
+		d.Counts["explicit_file_flags"] = 1
+		short := d.Gen != "gsort" // gsort's struct tags say `alias:` (not `aliases:`): long names only
+		d.OutFlag = "-out-file"
+		switch i % 3 {
+		case 0: // a name that does not end in the generator's default suffix
+			d.OutName = []string{"def_gen.go", "zz_generated.go", d.Gen + "_out.go"}[r.IntN(3)]
+			if short {
+				d.OutFlag = "-out"
+			}
+		case 1: // the default style with another base name
+			d.OutName = "other." + d.Gen + ".go"
+		case 2:
+			d.OutName, d.OutAbs = "abs_out.go", true
+			if short && r.IntN(2) == 0 {
+				d.OutFlag = "-out"
+			}
+		}
+		if i%2 == 1 {
+			d.InFlag = "-in-file"
+			if d.Gen == "genum" && r.IntN(2) == 0 {
+				d.InFlag = "-in"
+			}
+			d.InAbs = i%4 == 3
+		}
+		switch d.Gen {
+		case "gerror":
+			d.Opts = nil
+			if i%2 == 1 {
+				d.Opts = []string{[]string{"-skipConvertGen", "-skip-convert-gen=true"}[r.IntN(2)]}
+			}
+		case "genum":
+			d.Opts = nil
+			for _, f := range [][2]string{{"-json", "-gen-json"}, {"-yaml", "-gen-yaml"}, {"-text", "-gen-text"},
+				{"-caseInsensitive", "-case-insensitive"}, {"-disableTraits", "-disable-traits"}} {
+				if r.IntN(2) == 0 {
+					dflt := !strings.Contains(f[0], "ase") && !strings.Contains(f[0], "raits")
+					d.Opts = append(d.Opts, fmt.Sprintf("%s=%v", f[r.IntN(2)], !dflt))
+					if !dflt && strings.Contains(f[0], "raits") {
+						// traits are not inspected: no trait methods in the output
+						for e := range d.Enums {
+							d.Enums[e].Traits = nil
+						}
+					}
+				}
+			}
+		}
+	}
+	return ds
 }
 
 // EnumValue / EnumInfo: what the judge needs to know about a genum definition.
@@ -568,6 +753,7 @@ type job struct {
 	Steps   []step   `json:"steps"`              // this chain's history
 	Chain   string   `json:"chain"`              // which chain of the definition this job is
 	Outs    string   `json:"outs"`               // where distinct outputs are kept (for the replay's diff)
+	Out     string   `json:"out"`                // the file the generator is to write (default name or the -out flag's)
 }
 
 type obs struct {
@@ -632,6 +818,16 @@ func prepare(j job, prep string) {
 	}
 }
 
+// actualState: "keep what is there" at the start of a chain finds no output: the package is fresh.
+func actualState(j job, st step) step {
+	if st.Prep == "keep" {
+		if _, err := os.Stat(outPath(j)); err != nil {
+			st.State = "fresh"
+		}
+	}
+	return st
+}
+
 // record hashes the output and keeps one copy of every distinct output.
 func record(j job, mode string, seq int, st step, errText string) obs {
 	o := obs{Mode: mode, State: st.State, Cfg: st.Cfg, Sha: hashFile(outPath(j)), Err: errText, Chain: j.Chain, Seq: seq}
@@ -654,7 +850,12 @@ func argsOf(j job, cfg string) []string {
 	return j.Args
 }
 
-func outPath(j job) string { return filepath.Join(j.Dir, "def."+j.Kind+".go") }
+func outPath(j job) string {
+	if j.Out != "" {
+		return j.Out
+	}
+	return filepath.Join(j.Dir, "def."+j.Kind+".go")
+}
 
 func hashFile(p string) string {
 	b, err := os.ReadFile(p)
@@ -692,6 +893,7 @@ func worker(jobsJSON string) {
 			}
 			st := j.Steps[k]
 			prepare(j, st.Prep)
+			st = actualState(j, st)
 			_, err := generateInProcess(j.Kind, j.Dir, "def.go", argsOf(j, st.Cfg))
 			res[i] = append(res[i], record(j, "inproc", k, st, errClass(err)))
 		}
@@ -822,6 +1024,8 @@ func main() {
 	only := flag.String("only", "gsort,genum,gerror", "generators to draw definitions for")
 	staleWhich := flag.String("stale", "first", "which definitions get the stale-output histories (one in-process, one through the CLI): first (index 0 of each stream)|all")
 	twinEvery := flag.Int("twin-every", 3, "draw a set of twin genum packages at every k-th index")
+	flagStream := flag.Bool("flag-stream", true, "also draw the definitions of the file-name-flag stream")
+	feedbackEvery := flag.Int("feedback-every", 3, "draw the definitions of the feedback stream at every k-th index (0 = never)")
 	bins := map[string]*string{
 		"gsort":  flag.String("gsort", "", "gsort CLI"),
 		"genum":  flag.String("genum", "", "genum CLI"),
@@ -847,8 +1051,14 @@ func main() {
 			if i%*twinEvery == 0 {
 				ds = append(ds, tw...)
 			}
+			if *flagStream {
+				ds = append(ds, flagDefs(*seed, i)...)
+			}
+			if *feedbackEvery > 0 && i%*feedbackEvery == 0 {
+				ds = append(ds, feedbackDefs(*seed, i)...)
+			}
 			for _, d := range ds {
-				d.First = i == 0 && d.Batch == ""
+				d.First = i == 0 && d.Batch == "" && (d.Stream != "feedback" || d.Gen == "genum")
 				if strings.Contains(","+*only+",", ","+d.Gen+",") {
 					defs = append(defs, d)
 				}
@@ -885,10 +1095,32 @@ func main() {
 		dir := filepath.Join(*work, d.Pkg+suffix)
 		must(os.MkdirAll(dir, 0o755))
 		must(os.WriteFile(filepath.Join(dir, "def.go"), []byte(d.Source), 0o644))
-		j := job{Kind: d.Gen, Dir: dir, Pkg: d.Pkg, Args: append([]string{"-types", strings.Join(d.Types, ",")}, d.Opts...),
-			Outs: filepath.Join(*work, "outs", d.Pkg), Chain: "regular" + suffix}
+		for name, text := range d.Extra {
+			must(os.WriteFile(filepath.Join(dir, name), []byte(text), 0o644))
+		}
+		// the file-name flags (each chain has its own directory, so absolute paths differ per chain)
+		var fileFlags []string
+		if d.InFlag != "" {
+			in := "def.go"
+			if d.InAbs {
+				in = filepath.Join(dir, in)
+			}
+			fileFlags = append(fileFlags, d.InFlag, in)
+		}
+		out := ""
+		if d.OutName != "" {
+			out = filepath.Join(dir, d.OutName)
+			if d.OutAbs {
+				fileFlags = append(fileFlags, d.OutFlag+"="+out)
+			} else {
+				fileFlags = append(fileFlags, d.OutFlag+"="+d.OutName)
+			}
+		}
+		opts := append(append([]string{}, d.Opts...), fileFlags...)
+		j := job{Kind: d.Gen, Dir: dir, Pkg: d.Pkg, Args: append([]string{"-types", strings.Join(d.Types, ",")}, opts...),
+			Outs: filepath.Join(*work, "outs", d.Pkg), Chain: "regular" + suffix, Out: out}
 		if len(d.Types) >= 2 {
-			j.SubArgs = append([]string{"-types", d.Types[0]}, d.Opts...)
+			j.SubArgs = append([]string{"-types", d.Types[0]}, opts...)
 		}
 		j.Steps = steps(j)
 		return j
@@ -899,7 +1131,10 @@ func main() {
 		regular[i] = mkJob(i, "", func(job) []step { return regularPlan(*reps, true) })
 		singles = append(singles, chain{i, mkJob(i, "_c", func(job) []step { return regularPlan(*reps, false) }), "cli"})
 		if *staleWhich == "all" || defs[i].First {
-			singles = append(singles, chain{i, mkJob(i, "_is", stalePlan), "inproc"}, chain{i, mkJob(i, "_cs", stalePlan), "cli"})
+			if *staleWhich == "all" || (defs[i].Stream != "flags" && defs[i].Stream != "feedback") {
+				singles = append(singles, chain{i, mkJob(i, "_is", stalePlan), "inproc"})
+			}
+			singles = append(singles, chain{i, mkJob(i, "_cs", stalePlan), "cli"})
 		}
 	}
 	// resolve the module graph once (writes go.mod/go.sum additions) before anything runs in parallel
@@ -978,6 +1213,7 @@ func main() {
 			j := ch.j
 			for k, st := range j.Steps {
 				prepare(j, st.Prep)
+				st = actualState(j, st)
 				rc, log := runCmd(j.Dir, []string{"GOFILE=def.go", "PWD=" + j.Dir, "GOPACKAGE=" + j.Pkg}, *bins[j.Kind], argsOf(j, st.Cfg)...)
 				errText := ""
 				if rc != 0 {
